@@ -362,6 +362,8 @@ pub fn run(tier: Tier, shard: Shard, rep: &mut Report) {
          every capacity): exactly n - capacity evictions, nothing twice, classical for some reported flags; \
          ten inputs of 1500 and 4000 64-byte entries planned in a forked child whose allocator refuses every request above 24 n bytes \
          (a returned plan is still the classical one; an abort is not a plan); \
+         zero-sized entries (all idle, all busy) and one-byte entries with distinct ranks, n <= 6 resp. 5, every flag vector, every capacity 0..=n+1 \
+         (the plan does not depend on the size of an entry, and nothing panics); \
          plus enumerated large families (thorough). Non-trivial = n > capacity \
          and (a tie or an accessed entry is present). All cases are distinct by construction.",
         max_n, lazy_n
@@ -490,6 +492,112 @@ pub fn run(tier: Tier, shard: Shard, rep: &mut Report) {
     }
     live_bits_section(tier, shard, rep);
     refused_allocation_section(shard, rep);
+    entry_shapes_section(shard, rep);
+}
+
+/// Entries that occupy no memory at all (interchangeable permits): rank and flag are properties of the type.
+struct Unit<const ACCESSED: bool>;
+
+impl<const ACCESSED: bool> Entry for Unit<ACCESSED> {
+    type Rank = u8;
+    fn rank(&self) -> u8 {
+        0
+    }
+    fn accessed(&self) -> bool {
+        ACCESSED
+    }
+}
+
+/// A one-byte entry: rank in the high bits, flag in bit 0 (all entries of one input are given distinct ranks, so
+/// the byte identifies the entry).
+struct Byte(u8);
+
+impl Entry for Byte {
+    type Rank = u8;
+    fn rank(&self) -> u8 {
+        self.0 >> 1
+    }
+    fn accessed(&self) -> bool {
+        self.0 & 1 == 1
+    }
+}
+
+/// The planner is generic over the entry type: the plan may not depend on how many bytes an entry occupies.  Zero-sized
+/// entries (all idle, all busy) and one-byte entries, n <= 6, every capacity 0..=n+1: the counts (and, for the
+/// one-byte entries, the identities) are the classical ones, and nothing panics.
+fn entry_shapes_section(shard: Shard, rep: &mut Report) {
+    fn unit_case<const A: bool>(n: usize, capacity: usize) -> Result<(usize, usize), String> {
+        let entries: Vec<Unit<A>> = (0..n).map(|_| Unit::<A>).collect();
+        match std::panic::catch_unwind(move || {
+            let plan = Update::new(entries, capacity);
+            (plan.to_evict.len(), plan.to_move_back.len())
+        }) {
+            Ok(r) => Ok(r),
+            Err(e) => Err(e.downcast_ref::<String>().cloned().or_else(|| e.downcast_ref::<&str>().map(|s| s.to_string())).unwrap_or_default()),
+        }
+    }
+    let mut no = 0u64;
+    for n in 0..=6usize {
+        for capacity in 0..=n + 1 {
+            for accessed in [false, true] {
+                no += 1;
+                if !shard.mine(no) {
+                    continue;
+                }
+                rep.evaluations += 1;
+                rep.states += 1;
+                rep.transitions += 1;
+                rep.traces += 1;
+                rep.count("zero_sized_entry_cases", 1);
+                if n > capacity {
+                    rep.count("nontrivial_count", 1);
+                }
+                let order: Vec<(u32, bool)> = (0..n).map(|i| (i as u32, accessed)).collect();
+                let want = classical(&order, capacity);
+                let got = if accessed { unit_case::<true>(n, capacity) } else { unit_case::<false>(n, capacity) };
+                let msg = match got {
+                    Err(p) => Some(format!("the planner panicked: {}", p)),
+                    Ok((e, m)) if (e, m) != (want.0.len(), want.1.len()) => Some(format!("{} evictions and {} re-queued entries, the classical queue gives {} and {}", e, m, want.0.len(), want.1.len())),
+                    _ => None,
+                };
+                if let Some(m) = msg {
+                    rep.violation("planner:entry-shape", format!("n={} zero-sized entries (accessed={}) capacity={}: {}", n, accessed, capacity, m), json!({"entry_shapes": true}));
+                }
+            }
+        }
+    }
+    for n in 1..=5usize {
+        for flags in 0..(1u32 << n) {
+            for capacity in 0..=n + 1 {
+                no += 1;
+                if !shard.mine(no) {
+                    continue;
+                }
+                rep.evaluations += 1;
+                rep.states += 1;
+                rep.transitions += 1;
+                rep.traces += 1;
+                rep.count("one_byte_entry_cases", 1);
+                // input order is the reverse of the rank order
+                let bytes: Vec<u8> = (0..n).rev().map(|i| ((i as u8) << 1) | ((flags >> i) & 1) as u8).collect();
+                let order: Vec<(u32, bool)> = (0..n).map(|i| (i as u32, (flags >> i) & 1 == 1)).collect();
+                let want = classical(&order, capacity);
+                let entries: Vec<Byte> = bytes.iter().map(|&b| Byte(b)).collect();
+                let got = std::panic::catch_unwind(move || {
+                    let plan = Update::new(entries, capacity);
+                    (plan.to_evict.iter().map(|e| (e.0 >> 1) as u32).collect::<Vec<_>>(), plan.to_move_back.iter().map(|e| (e.0 >> 1) as u32).collect::<Vec<_>>())
+                });
+                let msg = match got {
+                    Err(_) => Some("the planner panicked".to_string()),
+                    Ok(g) if g != want => Some(format!("plan {:?}, the classical queue gives {:?}", g, want)),
+                    _ => None,
+                };
+                if let Some(m) = msg {
+                    rep.violation("planner:entry-shape", format!("n={} one-byte entries flags={:#b} capacity={}: {}", n, flags, capacity, m), json!({"entry_shapes": true}));
+                }
+            }
+        }
+    }
 }
 
 /// An entry whose access bit is live (set or cleared by readers while the planner runs): the first look answers
@@ -678,6 +786,10 @@ fn refused_allocation_section(shard: Shard, rep: &mut Report) {
 pub fn replay(case: &Value, rep: &mut Report) {
     if case.get("refused_allocation").is_some() {
         refused_allocation_section(Shard { index: 0, count: 1 }, rep);
+        return;
+    }
+    if case.get("entry_shapes").is_some() {
+        entry_shapes_section(Shard { index: 0, count: 1 }, rep);
         return;
     }
     if case.get("live_bits").is_some() {
